@@ -535,7 +535,13 @@ func vf15Setup(kind string, f []string) (*vf15Env, error) {
 	e.dp = &vf15DP{asyncOK: true, lateAdds: map[string]func(error){}, okByKey: map[uint64]bool{}}
 	e.store = &vf15Store{ns: map[string]map[string][]byte{}}
 	e.sp = &vf15Provider{sessions: map[string]models.SubscriberSession{}}
-	cfg := &config.Config{CGNAT: &cgnatcfg.Config{Pools: map[string]*cgnatcfg.Pool{"p1": raw}}}
+	e.newComponent()
+	return e, nil
+}
+
+// a Component over the environment's pool manager, store, dataplane and provider
+func (e *vf15Env) newComponent() {
+	cfg := &config.Config{CGNAT: &cgnatcfg.Config{Pools: map[string]*cgnatcfg.Pool{"p1": e.raw}}}
 	e.c = &Component{
 		Base:            component.NewBase("cgnat"),
 		logger:          logger.NewTest(),
@@ -553,7 +559,65 @@ func vf15Setup(kind string, f []string) (*vf15Env, error) {
 		sessionProvider: e.sp,
 		activations:     map[string]struct{}{},
 	}
-	return e, nil
+}
+
+// process restart: fresh pool manager and component over the same opdb; every persisted session is present in the
+// subscriber cache and the bulk reprogram succeeds
+func (e *vf15Env) restart() string {
+	e.pm = NewPoolManager()
+	if err := e.pm.ConfigurePool("p1", 1, e.raw); err != nil {
+		return "cfgerr"
+	}
+	e.dp.lateAdds = map[string]func(error){}
+	e.dp.deferred = nil
+	e.newComponent()
+	sessions := map[string]models.SubscriberSession{}
+	for sid, data := range e.store.ns[opdbNamespace] {
+		var m models.CGNATMapping
+		if err := json.Unmarshal(data, &m); err != nil {
+			continue
+		}
+		vrf := ""
+		if m.InsideVRFID != 0 {
+			vrf = fmt.Sprintf("vrf%d", m.InsideVRFID)
+		}
+		sessions[sid] = &models.IPoESession{SessionID: sid, AccessType: string(models.AccessTypeIPoE), IfIndex: 9,
+			IPv4Address: m.InsideIP, VRF: vrf}
+	}
+	e.sp.sessions = sessions
+	err := e.c.restoreFromOpDB(context.Background())
+	e.sp.sessions = map[string]models.SubscriberSession{}
+	if err != nil {
+		return "err"
+	}
+	return e.dpResult()
+}
+
+// the persisted records, decoded: sid=subscriber/ip/start-end
+func (e *vf15Env) dbDump() string {
+	type rec struct {
+		sid uint64
+		txt string
+	}
+	var recs []rec
+	for sid, data := range e.store.ns[opdbNamespace] {
+		var m models.CGNATMapping
+		if err := json.Unmarshal(data, &m); err != nil {
+			recs = append(recs, rec{vf15Num(sid), sid + "=UNDECODABLE"})
+			continue
+		}
+		recs = append(recs, rec{vf15Num(sid), fmt.Sprintf("%s=%d/%d/%d-%d", sid, vf15Key(m.InsideVRFID, m.InsideIP),
+			vf15IPNum(m.OutsideIP), m.PortBlockStart, m.PortBlockEnd)})
+	}
+	sort.Slice(recs, func(i, j int) bool { return recs[i].sid < recs[j].sid })
+	out := []string{}
+	for _, r := range recs {
+		out = append(out, r.txt)
+	}
+	if len(out) == 0 {
+		return "db -"
+	}
+	return "db " + strings.Join(out, ",")
 }
 
 func (e *vf15Env) lifecycle(sid string, k uint64, state models.SessionState) *events.SessionLifecycleEvent {
@@ -600,6 +664,10 @@ func (e *vf15Env) op(kind string, tok string) string {
 	e.dp.bulk = 0
 	e.dp.lateSid = ""
 	switch a[0] {
+	case "B":
+		return e.restart()
+	case "b":
+		return e.dbDump()
 	case "eL":
 		st := map[string]models.SessionState{"a": models.SessionStateActive, "r": models.SessionStateReleased}[a[1]]
 		if st == "" {
